@@ -267,7 +267,9 @@ class Environment:
                 until = Event(self)
                 until._ok = True
                 until._value = None
-                self.schedule(until, URGENT, at - self.now)
+                # Not self.schedule(until, URGENT, at - self.now): for floats
+                # now + (at - now) need not equal at.
+                heappush(self._queue, (at, URGENT, next(self._eid), until))
 
             elif until.callbacks is None:
                 # Until event has already been processed.
